@@ -1,0 +1,12 @@
+//go:build verif
+
+package mbapp
+
+import "sync/atomic"
+
+// VerifSetCounter sets the message counter, for the verification harness: the next message
+// carries v+1. It lets a test put two in-flight asks under the same counter, as happens after
+// a wrap-around or a restart of the asker.
+func (s *Swarm[A, Pub]) VerifSetCounter(v uint32) {
+	atomic.StoreUint32(&s.counter, v)
+}
